@@ -7,7 +7,11 @@ AmplitudeModel with an exception injected at every evaluation point (user-code p
 every decay_group.sum_amp call); the full model state is captured at every evaluation point and
 at the end and compared *inside Coq* (vm_compute) with the model's run of the same program.
 Direct property test (independent of the Coq model): state before == state after and the density
-of the probe events bit-identical."""
+of the probe events bit-identical.
+Three further model families (findings C17-1..3): a use_tf_function model whose density is evaluated
+through the cached (traced) path inside the blocks, a one-chain use_tf_function model for
+factor_iteration, a cached_shape amplitude model whose density evaluation narrows the chain
+selection itself; temp_params managers whose assignment raises half-way."""
 import contextlib
 import json
 import random
@@ -60,6 +64,18 @@ CFG5 = {  # 4-body cascade: the Decay object A -> X E is shared by both chains a
         "Z": {"J": 2, "P": 1, "mass": 1.0, "width": 0.2},
     },
 }
+CFG_TF = dict(CFG, data={"dat_order": ["B", "C", "D"], "use_tf_function": True})
+CFG_TF1 = {  # one-chain group: factor_iteration keeps the selection complete, so the cached path stays enabled
+    "data": {"dat_order": ["B", "C", "D"], "use_tf_function": True},
+    "decay": {"A": [["R_BC", "D"]], "R_BC": ["B", "C"]},
+    "particle": {"$top": CFG["particle"]["$top"], "$finals": CFG["particle"]["$finals"],
+                 "R_BC": {"J": 1, "P": -1, "mass": 0.5, "width": 0.05}},
+}
+CFG_CS = {  # amp_model cached_shape: the density evaluation narrows the chain selection around build_params_vector
+    "data": {"dat_order": ["B", "C", "D"], "preprocessor": "cached_shape", "amp_model": "cached_shape"},
+    "decay": CFG["decay"],
+    "particle": dict(CFG["particle"], R_BC={"J": 0, "P": 1, "mass": 0.5, "width": 0.05, "float": "mg"}),
+}
 CONF_KEYS = ["verif_c17_a", "verif_c17_b", "multi_gpus", "polar"]
 
 
@@ -75,7 +91,7 @@ def frac(x):
 class Model:
     """the implementation under test + the encoding of its state"""
 
-    def __init__(self, cfg, seed, bound_name="R_BC_mass"):
+    def __init__(self, cfg, seed, bound_name="R_BC_mass", mode="eager"):
         import numpy as np
         import tf_pwa.config as tcfg
         from tf_pwa.config_loader import ConfigLoader
@@ -83,6 +99,8 @@ class Model:
 
         self.np = np
         self.tcfg = tcfg
+        self.mode = mode  # "eager" | "tf" (cached path of AbsPDF.__call__ in use) | "cs" (cached_shape amplitude model)
+        self.cfg = cfg
         for k in CONF_KEYS[:2]:
             try:
                 tcfg.get_config(k)
@@ -111,6 +129,8 @@ class Model:
         self.data = self.config.data.cal_angle(p)
         self.orig_sum_amp = self.dg.sum_amp
         self.reset(list(range(self.nch)))
+        self.amp(self.data)  # registers id(data): later calls may take the cached path
+        self.cs_idx = list(self.amp.get_cached_shape_idx()) if mode == "cs" else []
         # static structure: resonance -> chains, chain -> factor_iteration mask dicts
         self.resmap = []
         for ri, r in enumerate(self.amp.res):
@@ -161,15 +181,51 @@ class Model:
             return v
         return 10 ** 6 + (hash(str(v)) % 1000)
 
-    def density(self):
-        return self.amp(self.data).numpy().tobytes().hex()
+    def density(self, eager=False):
+        if eager:  # reference value, never through a trace
+            return self.amp.pdf(self.data).numpy()
+        return self.amp(self.data).numpy()
+
+    def fresh_trace_cache(self):
+        """a new session: no trace of the density exists yet (as AbsPDF.__init__ builds it)"""
+        if self.mode == "tf":
+            from tf_pwa.experimental.wrap_function import WrapFun
+
+            self.amp.cached_fun = WrapFun(self.amp.pdf)
+
+    def same_density(self, a, b):
+        """eager models: bit-identical.  Cached path: a traced and an eager evaluation of the same
+        formula may differ in the last bits (observed 4e-16): relative 1e-12"""
+        if self.mode != "tf":
+            return a.tobytes() == b.tobytes()
+        return a.shape == b.shape and bool(self.np.all(self.np.abs(a - b) <= 1e-12 * self.np.abs(b)))
 
 
 # ---------------------------------------------------------------- programs
 
 
+BAD_VALUES = {"str": "1.0e-1x", "shape": [1.0, 2.0]}
+
+
+def gen_bad(rnd, M, vm):
+    """a temp_params argument whose assignment raises half-way: entries before the unusable value,
+    the unusable value, entries after it; or (AbsPDF only) a list of trainable values one too short"""
+    dy = lambda: rnd.randrange(-96, 97) / 64.0
+    if not vm and rnd.random() < 0.3:
+        return ("temp_params_short", rnd.randrange(1, 64) / 64.0)
+    names = rnd.sample([n for n in M.names if n != M.bound_name], rnd.randrange(1, 5))
+    cut = rnd.randrange(0, len(names))
+    good = {n: dy() for n in names[:cut]}
+    tail = {n: dy() for n in names[cut + 1:]}
+    if vm and rnd.random() < 0.2:
+        tail["no_such_variable"] = 1.5  # the save phase raises first: nothing is assigned
+    return ("vm_temp_params_bad" if vm else "temp_params_bad", good, (names[cut], rnd.choice(sorted(BAD_VALUES))), tail)
+
+
 def gen_blk(rnd, M, masked, allow_unsafe=False):
     kinds = ["vm_temp_params", "mask_params", "temp_used_res", "gls_one", "temp_config"]
+    if rnd.random() < 0.12:
+        return gen_bad(rnd, M, vm=masked or rnd.random() < 0.5)
     if not masked or allow_unsafe:
         kinds += ["temp_params", "temp_params"]
     k = rnd.choice(kinds)
@@ -195,6 +251,8 @@ def gen_blk(rnd, M, masked, allow_unsafe=False):
 
 
 def gen_helper(rnd, M):
+    if M.mode == "cs":  # the other helpers either evaluate through this density (nested narrowing) or need data the
+        return ("cspdf",)  # cached_shape preprocessor does not provide
     k = rnd.choice(["pw", "pw", "pwbase", "interf", "ff", "ff_ng", "appendint"])
     if k == "pw":
         comb = []
@@ -216,6 +274,10 @@ def gen_helper(rnd, M):
 def gen_prog(rnd, M, depth, masked=False, allow_unsafe=False):
     r = rnd.random()
     if depth <= 0 or r < 0.15:
+        if M.mode == "tf" and rnd.random() < 0.7:
+            return ("dens",)  # user code evaluating amp(data)
+        if M.mode == "cs" and rnd.random() < 0.6:
+            return ("helper", ("cspdf",))
         return ("eval",)
     if r < 0.35:
         return ("seq", gen_prog(rnd, M, depth - 1, masked, allow_unsafe), gen_prog(rnd, M, depth - 1, masked, allow_unsafe))
@@ -231,7 +293,7 @@ def gen_prog(rnd, M, depth, masked=False, allow_unsafe=False):
 
 
 def is_safe(p, m=False):
-    if p[0] == "eval" or p[0] == "helper":
+    if p[0] in ("eval", "helper", "dens"):
         return True
     if p[0] == "seq":
         return is_safe(p[1], m) and is_safe(p[2], m)
@@ -272,9 +334,62 @@ MASKED_PROGS = [  # AbsPDF.temp_params entered while a parameter mask is active 
 ]
 
 
+BAD_PROGS = [  # finding C17-2: the assignment of the temporary values raises half-way
+    ("with", ("temp_params_bad", {"R_BD_mass": 0.625}, ("R_CD_mass", "str"), {}), ("eval",)),
+    ("with", ("temp_params_bad", {"R_BD_mass": 0.625, "R_CD_width": 0.125}, ("R_CD_mass", "shape"), {"R_BD_width": 0.25}), ("eval",)),
+    ("with", ("temp_params_short", 0.25), ("eval",)),
+    ("with", ("vm_temp_params_bad", {"R_BD_mass": 0.625}, ("R_CD_mass", "shape"), {"R_BD_width": 0.25}), ("eval",)),
+    ("with", ("vm_temp_params_bad", {"R_BC_mass": 0.5625}, ("R_CD_mass", "str"), {}), ("eval",)),
+    ("with", ("vm_temp_params_bad", {"R_BD_mass": 0.625}, ("R_CD_mass", "str"), {"no_such_variable": 1.5}), ("eval",)),
+    ("with", ("mask_params", {"R_BC_mass": 0.75}), ("seq", ("eval",), ("with", ("temp_params_bad", {"R_BC_mass": 0.625}, ("R_BD_mass", "str"), {}), ("eval",)))),
+    ("with", ("temp_used_res", ["R_BC"], []), ("seq", ("with", ("temp_params_short", 0.5), ("eval",)), ("eval",))),
+    ("fiter", ("with", ("vm_temp_params_bad", {"R_CD_mass": 0.5}, ("R_BD_mass", "shape"), {}), ("eval",))),
+]
+TF_PROGS = [  # finding C17-1: the density evaluated through the cached path inside the blocks
+    ("with", ("mask_params", {"R_CD_mass": 0.53125}), ("dens",)),
+    ("with", ("gls_one",), ("dens",)),
+    ("with", ("mask_params", {"R_BC_mass": 0.625}), ("with", ("gls_one",), ("dens",))),
+    ("seq", ("dens",), ("with", ("mask_params", {"R_BD_width": 0.125}), ("dens",))),
+    ("with", ("temp_params", {"R_BD_mass": 0.625}), ("dens",)),
+    ("with", ("temp_used_res", ["R_BC", "R_BD"], []), ("dens",)),
+    ("fiter", ("dens",)),
+    ("with", ("temp_config", "verif_c17_a", 7), ("seq", ("helper", ("pw", None)), ("dens",))),
+    ("with", ("vm_temp_params", {"R_CD_width": 0.125}), ("with", ("mask_params", {"R_CD_width": 0.25}), ("seq", ("dens",), ("eval",)))),
+]
+TF1_PROGS = [  # one-chain group
+    ("fiter", ("dens",)),
+    ("fiter", ("seq", ("eval",), ("with", ("gls_one",), ("dens",)))),
+    ("with", ("mask_params", {"R_BC_mass": 0.53125}), ("dens",)),
+]
+CS_PROGS = [  # finding C17-3: the cached_shape density evaluation (one evaluation point inside its narrowed selection)
+    ("helper", ("cspdf",)),
+    ("with", ("mask_params", {"R_CD_mass": 0.53125}), ("helper", ("cspdf",))),
+    ("with", ("temp_params", {"R_BD_mass": 0.625}), ("seq", ("eval",), ("helper", ("cspdf",)))),
+    ("with", ("gls_one",), ("seq", ("helper", ("cspdf",)), ("eval",))),
+    ("with", ("temp_used_res", ["R_BC", "R_CD"], []), ("helper", ("cspdf",))),
+    ("with", ("temp_config", "verif_c17_a", 7), ("helper", ("cspdf",))),
+    ("fiter", ("helper", ("cspdf",))),
+    ("with", ("vm_temp_params", {"R_CD_width": 0.125}), ("seq", ("helper", ("cspdf",)), ("helper", ("cspdf",)))),
+]
+
+
+def bad_arg(M, b):
+    """the Python argument of a failing temp_params block and the entries assigned before it raises"""
+    f64 = M.np.float64
+    if b[0] == "temp_params_short":
+        tv = list(M.vm.trainable_vars)
+        vals = [float(M.init_vals[n]) + b[1] for n in tv]
+        return [f64(v) for v in vals[:-1]], dict(zip(tv[:-1], vals[:-1])), []
+    arg = {k: f64(v) for k, v in b[1].items()}
+    arg[b[2][0]] = BAD_VALUES[b[2][1]]
+    arg.update({k: f64(v) for k, v in b[3].items()})
+    return arg, dict(b[1]), [b[2][0]] + list(b[3])
+
+
 class Runner:
     def __init__(self, M, K):
         self.M, self.K, self.n, self.trace = M, K, 0, []
+        self.in_dens = False
 
     def tick(self):
         self.trace.append(self.M.snapshot())
@@ -298,6 +413,10 @@ class Runner:
             return M.amp.temp_total_gls_one()
         if b[0] == "temp_config":
             return M.tcfg.temp_config(b[1], b[2])
+        if b[0] in ("temp_params_bad", "temp_params_short"):
+            return M.amp.temp_params(bad_arg(M, b)[0])
+        if b[0] == "vm_temp_params_bad":
+            return M.vm.temp_params(bad_arg(M, b)[0])
         raise ValueError(b)
 
     def helper(self, h):
@@ -318,12 +437,21 @@ class Runner:
             cal_fitfractions_no_grad(M.amp, M.data, res=list(h[1]), batch=h[2])
         elif h[0] == "appendint":
             FitFractions(M.amp, list(h[1])).append_int(M.data)
+        elif h[0] == "cspdf":
+            M.amp.pdf(M.data)
         else:
             raise ValueError(h)
 
     def exec(self, p):
         if p[0] == "eval":
             self.tick()
+        elif p[0] == "dens":  # user code: (may raise, then) evaluates the density the way a user does
+            self.tick()
+            self.in_dens = True
+            try:
+                self.M.amp(self.M.data)
+            finally:
+                self.in_dens = False
         elif p[0] == "seq":
             self.exec(p[1])
             self.exec(p[2])
@@ -341,25 +469,38 @@ class Runner:
 
 def run_impl(M, p, K, init):
     """returns (before, trace, after, exn_escaped, density_before, density_after, n_ticks)"""
+    import tf_pwa.experimental.build_amp as build_amp
+
     M.reset(*init)
     before = M.snapshot()
-    d0 = M.density()
+    M.fresh_trace_cache()
+    d0 = M.density(eager=(M.mode == "tf"))
     r = Runner(M, K)
 
     def patched(data, *a, **kw):
-        r.tick()
+        if not r.in_dens:  # inside a user-level density evaluation ("dens") the evaluation point is the user's
+            r.tick()
         return M.orig_sum_amp(data, *a, **kw)
 
+    orig_bpv = build_amp.build_params_vector
+
+    def patched_bpv(*a, **kw):  # the evaluation point inside CachedShapeAmplitudeModel.pdf
+        r.tick()
+        return orig_bpv(*a, **kw)
+
     M.dg.sum_amp = patched
+    if M.mode == "cs":
+        build_amp.build_params_vector = patched_bpv
     exn = None
     try:
         r.exec(p)
     except Injected:
         exn = "Injected"
-    except Exception as ex:  # raised by the implementation itself (unknown name in a manager)
+    except Exception as ex:  # raised by the implementation itself (unknown name in a manager, unusable value)
         exn = type(ex).__name__ + ":" + str(ex)[:60]
     finally:
         del M.dg.sum_amp
+        build_amp.build_params_vector = orig_bpv
     after = M.snapshot()
     d1 = M.density()
     return before, r.trace, after, exn, d0, d1, r.n
@@ -413,6 +554,11 @@ def c_blk(M, b):
         return "(BTempUsedRes %s %s)" % (c_zl([M.res.index(r) for r in b[1]]), c_zl(b[2]))
     if b[0] == "gls_one":
         return "BTotalGlsOne"
+    if b[0] in ("temp_params_bad", "temp_params_short"):
+        return "(BTempParamsBad %s)" % c_dict(M, bad_arg(M, b)[1])
+    if b[0] == "vm_temp_params_bad":
+        _, good, rest = bad_arg(M, b)
+        return "(BVmTempParamsBad %s %s)" % (c_dict(M, good), c_zl([M.key(k) for k in rest]))
     return "(BTempConfig %d %s)" % (conf_key(b[1]), c_val(frac(b[2])))
 
 
@@ -425,6 +571,8 @@ def c_helper(M, h):
         return "(HPartialWeightBase [%s])" % ";".join(c_zl(c) for c in h[1])
     if h[0] == "interf":
         return "HInterference"
+    if h[0] == "cspdf":
+        return "(HCachedShapePdf %s)" % c_zl(M.cs_idx)
     if h[0] in ("ff", "ff_ng"):
         nb = (5 + h[2] - 1) // h[2]
         return "(HFitFractions %s %d%%nat)" % (ri(h[1]), nb)
@@ -432,7 +580,7 @@ def c_helper(M, h):
 
 
 def c_prog(M, p):
-    if p[0] == "eval":
+    if p[0] in ("eval", "dens"):
         return "PEval"
     if p[0] == "seq":
         return "(PSeq %s %s)" % (c_prog(M, p[1]), c_prog(M, p[2]))
@@ -499,9 +647,25 @@ def campaign(ctx, M, tag, progs, inits, rnd, max_pos, pin=None, nfixed=None):
             if "nf" in diff and init[1] is not None:  # stale not_full recomputed: observation, not a property failure
                 ctx.count("not_full_recomputed(observation)")
                 del diff["nf"]
-            if diff or d0 != d1:
-                direct.append({"input": inp, "state_diff": diff, "density_changed": d0 != d1, "escaped": exn})
+            if diff or not M.same_density(d1, d0):
+                direct.append({"input": inp, "state_diff": diff, "density_changed": not M.same_density(d1, d0),
+                               "density_before_after": [[float(x) for x in M.np.ravel(d0)[:3]], [float(x) for x in M.np.ravel(d1)[:3]]], "escaped": exn})
     return prelude, cases, meta, direct
+
+
+MODELS = {  # tag -> (configuration, seed offset, bounded parameter, mode)
+    "a": (CFG, 17, "R_BC_mass", "eager"),
+    "b": (CFG4, 18, "R_BC_mass", "eager"),
+    "c": (CFG5, 19, "Y_mass", "eager"),
+    "t": (CFG_TF, 20, "R_BC_mass", "tf"),
+    "u": (CFG_TF1, 21, "R_BC_mass", "tf"),
+    "s": (CFG_CS, 22, "R_BC_mass", "cs"),
+}
+
+
+def make_model(tag, seed):
+    cfg, off, bound, mode = MODELS[tag]
+    return Model(cfg, seed + off, bound_name=bound, mode=mode)
 
 
 def run(ctx):
@@ -514,15 +678,19 @@ def run(ctx):
                 "temp_total_gls_one, temp_config) x read-only helpers (partial_weight both variants, partial_weight_interference, "
                 "cal_fitfractions(+_no_grad, 1-2 batches), FitFractions.append_int, factor_iteration loops) x user-code points; every program "
                 "is run without fault and with an exception injected at each evaluation point (user point or decay_group.sum_amp call; "
-                "sampled when > max_pos); initial chain selections full / partial / reordered / reached via set_used_res(name+index); restricted histories whose "
+                "sampled when > max_pos); temp_params managers (both) whose assignment raises half-way (unusable string / wrong shape at a random "
+                "position of the dict, a list of trainable values one too short); a use_tf_function model (3 chains, and a one-chain group for "
+                "factor_iteration) whose user points evaluate amp(data) through the cached path, every program starting without a trace, density after "
+                "= amp(data) against the eager density before (rel 1e-12); a cached_shape amplitude model whose density evaluation (one evaluation "
+                "point inside its own narrowed selection) is a helper; initial chain selections full / partial / reordered / reached via set_used_res(name+index); restricted histories whose "
                 "temporary selection names exactly the active chains plus an index; a 4-body cascade in which one Decay object is shared by two chains; "
                 "distinct = (program, injection point) with >= 2 evaluation points; one Coq obligation per run")
     common.theorem_stage(ctx)
-    M = Model(CFG, ctx.seed + 17)
+    M = make_model("a", ctx.seed)
     inits = [(list(range(M.nch)), None), ([0, 1], None), ([2], None), ([1, 0, 2], None), ([], ["R_BC", 1, 2]), ([0, 2], None)]
     nrand = 40 if quick else 250
-    progs = list(FIXED_PROGS) + list(MASKED_PROGS)
-    while len(progs) < len(FIXED_PROGS) + len(MASKED_PROGS) + nrand:
+    progs = list(FIXED_PROGS) + list(MASKED_PROGS) + list(BAD_PROGS)
+    while len(progs) < len(FIXED_PROGS) + len(MASKED_PROGS) + len(BAD_PROGS) + nrand:
         p = gen_prog(rnd, M, rnd.choice([2, 3, 3, 4]), allow_unsafe=True)
         progs.append(p)
         ctx.count("temp_params_under_mask=%s" % ("no" if is_safe(p) else "yes"))
@@ -538,7 +706,7 @@ def run(ctx):
     ctx.log("model A: %d chains, %d variables, %d programs" % (M.nch, len(M.names), len(progs)))
     prelude, cases, meta, direct = campaign(ctx, M, "a", progs, inits, rnd, 10 if quick else 25, pin=pin)
     # cascade with a Decay object shared between chains (aliasing inside temp_total_gls_one's object list)
-    M5 = Model(CFG5, ctx.seed + 19, bound_name="Y_mass")
+    M5 = make_model("c", ctx.seed)
     progs5 = [("with", ("gls_one",), ("eval",)),
               ("with", ("gls_one",), ("with", ("gls_one",), ("eval",))),
               ("with", ("gls_one",), ("helper", ("pw", None))),
@@ -555,11 +723,27 @@ def run(ctx):
     cases += cs5
     meta.update(mt5)
     direct += dr5
+    # cached evaluation path (use_tf_function): the density is evaluated with amp(data) inside the blocks; afterwards
+    # amp(data) - through the trace, when one is available - is compared with the eager density before
+    for tag, fixed, nr, mp, ini in (("t", TF_PROGS, 2 if quick else 40, 1 if quick else 4, [([0, 1, 2], None), ([1, 0, 2], None)]),
+                                    ("u", TF1_PROGS, 1 if quick else 10, 1 if quick else 3, [([0], None)]),
+                                    ("s", CS_PROGS, 6 if quick else 60, 4 if quick else 10, [([0, 1, 2], None), ([0, 1], None), ([1, 0, 2], None), ([2], None)])):
+        Mx = make_model(tag, ctx.seed)
+        progsx = list(fixed)
+        while len(progsx) < len(fixed) + nr:
+            progsx.append(gen_prog(rnd, Mx, rnd.choice([2, 3, 3]), allow_unsafe=True))
+        ctx.log("model %s (%s): %d chains, %d variables, %d programs" % (tag, Mx.mode, Mx.nch, len(Mx.names), len(progsx)))
+        plx, csx, mtx, drx = campaign(ctx, Mx, tag, progsx, ini, rnd, mp, nfixed=len(fixed))
+        ctx.count("family=%s" % Mx.mode, len(csx))
+        prelude += plx
+        cases += csx
+        meta.update(mtx)
+        direct += drx
     if not quick:
-        M4 = Model(CFG4, ctx.seed + 18)
+        M4 = make_model("b", ctx.seed)
         inits4 = [(list(range(4)), None), ([0, 2], None), ([3, 1], None), ([], ["R_BC", 3]), ([1], None)]
-        progs4 = list(FIXED_PROGS) + list(MASKED_PROGS)
-        while len(progs4) < 100 + len(FIXED_PROGS):
+        progs4 = list(FIXED_PROGS) + list(MASKED_PROGS) + list(BAD_PROGS)
+        while len(progs4) < 109 + len(FIXED_PROGS):
             progs4.append(gen_prog(rnd, M4, rnd.choice([2, 3, 4]), allow_unsafe=True))
         ctx.log("model B: %d chains, %d variables, %d programs" % (M4.nch, len(M4.names), len(progs4)))
         pl4, cs4, mt4, dr4 = campaign(ctx, M4, "b", progs4, inits4, rnd, 15)
@@ -580,7 +764,8 @@ def run(ctx):
     for d in direct:
         ctx._direct.append(d)
         ctx.fail("property", "direct", "model state / density differs after the program: %s" % json.dumps(d["state_diff"], default=str)[:600],
-                 inp=d["input"], site="override blocks / helpers", fingerprint="direct", failing_input=d)
+                 inp=d["input"], site="override blocks / helpers",
+                 fingerprint={"tf": "direct:cached-path", "cs": "direct:cached-shape"}.get(MODELS[d["input"]["model"]][3], "direct"), failing_input=d)
     ctx.notes.append("observation: temp_used_res / helpers recompute not_full on exit; it differs from the value before only when the "
                      "selection had been made with set_used_res(name+index), which leaves not_full stale")
     return common.finish(
@@ -601,13 +786,14 @@ def search(ctx, fails):
         inp = f.get("input")
         if not inp or "program" not in inp:
             continue
-        if M is None:
-            M = Model(CFG if inp.get("model", "a") == "a" else CFG4, ctx.seed + 17)
+        if M is None or M.tag != inp.get("model", "a"):
+            M = make_model(inp.get("model", "a"), ctx.seed)
+            M.tag = inp.get("model", "a")
         init = (inp["initial"]["chains_idx"], None)
         before, trace, after, exn, d0, d1, n = run_impl(M, inp["program"], inp["inject_at_evaluation"], init)
         diff = state_diff(before, after)
-        if diff or d0 != d1:
-            return {"input": inp, "state_diff": diff, "density_changed": d0 != d1, "escaped": exn}
+        if diff or not M.same_density(d1, d0):
+            return {"input": inp, "state_diff": diff, "density_changed": not M.same_density(d1, d0), "escaped": exn}
     return None
 
 
@@ -624,8 +810,8 @@ def replay(rep):
     def tup(x):
         return tuple(tup(i) for i in x) if isinstance(x, list) else x
 
-    M = Model(CFG if inp.get("model", "a") == "a" else CFG4, rep.get("seed", 0) + 17)
+    M = make_model(inp.get("model", "a"), rep.get("seed", 0))
     p = tup(inp["program"])
     before, trace, after, exn, d0, d1, n = run_impl(M, p, inp["inject_at_evaluation"], (inp["initial"]["chains_idx"], None))
-    print("impl now: escaped=%s state_diff=%s density_changed=%s" % (exn, state_diff(before, after), d0 != d1))
+    print("impl now: escaped=%s state_diff=%s density_changed=%s" % (exn, state_diff(before, after), not M.same_density(d1, d0)))
     return 0
